@@ -53,7 +53,7 @@ def _case(draw, tier):
     fault = draw(st.sampled_from(["none", "no_index", "missing_dir", "missing_dir", "truncate", "flip", "not_tar", "dup_row", "dup_row",
                                   "preexisting_dir", "parent_is_file", "kill", "kill", "kill"]))
     case = {"rows": rows, "fault": fault, "pos": draw(st.sampled_from(range(5))), "frac": draw(st.sampled_from(range(1000))),
-            "prior": draw(st.sampled_from(["empty", "unrelated", "same_task"])), "ndup": draw(st.sampled_from([1, 1, 2])),
+            "prior": draw(st.sampled_from(["empty", "unrelated", "same_task", "stale_staging"])), "ndup": draw(st.sampled_from([1, 1, 2])),
             "not_tar": draw(st.sampled_from(["garbage", "empty", "dir", "missing"]))}
     return case
 
@@ -125,6 +125,21 @@ def prepare(case, work):
         projgen.seed_rows(dst, prior, make_dirs=True, files=[("keep.txt", "prior data"), ("sub/k.bin", "\x01\x02")])
     else:
         os.makedirs(os.path.join(dst, "cond-out"), exist_ok=True)
+    if case["prior"] == "stale_staging":
+        # what a restore of ANOTHER archive leaves behind when it is killed right after extraction
+        other = os.path.join(work, "other")
+        os.makedirs(other)
+        with open(os.path.join(other, "cond_config.toml"), "w") as f:
+            f.write("disable_git = true\n")
+        open(os.path.join(other, "COND"), "w").close()
+        projgen.seed_rows(other, [("//stale:s", 77, None, False)], make_dirs=True)
+        oarch = os.path.join(work, "other.tar.gz")
+        if run_cond(other, ["archive", "-o", oarch])["status"] == 0:
+            for name in ("archive-tmp", "archive-tmp.staging"):
+                st_dir = os.path.join(dst, "cond-out", name)
+                os.makedirs(st_dir, exist_ok=True)
+                with tarfile.open(oarch, "r:gz") as t:
+                    t.extractall(st_dir)
     return arch, dst, rows, src
 
 
@@ -244,6 +259,8 @@ def _run(case, work):
         inject = {"mode": "kill", "at": k, "files": _files(tier)}
     if case["prior"] == "same_task":
         labels.add("prior_same_task_other_ts")
+    if case["prior"] == "stale_staging":
+        labels.add("prior_stale_staging_dir")
     rows_before = projgen.read_rows(dst)
     snap_before = trees.snapshot(os.path.join(dst, "cond-out"))
     recorded_dirs = {os.path.relpath(projgen.version_dir(dst, t, ts), os.path.join(dst, "cond-out")) for t, ts, _, _ in rows_before}
